@@ -1094,6 +1094,14 @@ func (c *ctx) follow(info *spec.EMsg, st *GV, got, ref *TV, path string, fails *
 			}
 			continue
 		}
+		if state == fsInactive && f.Oneof != "" && f.Shape == "prim" && !f.Ptr {
+			// a scalar branch of a oneof that the new source does not select: the source's value is the zero value
+			// (what the getter returns), and an attribute that is not null carries it
+			if !a.Null && a.K == "pv" && e.K == "pv" && !EqualGV(a.Pay, e.Pay) {
+				bad("non-null attribute of an unselected oneof branch does not carry the source's (zero) value")
+			}
+			continue
+		}
 		if state != fsOK {
 			continue
 		}
